@@ -105,6 +105,11 @@ func (r *Reader) readBlock() error {
 		}
 		r.data = data
 	case encodedNone:
+		if rawSize != dataSize {
+			return errors.Errorf("unexpected data size: %d (raw) != %d (got in header)",
+				rawSize, dataSize,
+			)
+		}
 		copy(r.data, r.raw[headerSize:])
 	default:
 		return errors.Errorf("compression 0x%02x not implemented", m)
